@@ -160,7 +160,7 @@ def write_replay(prop, sc, violation):
     body['observed'] = violation.get('detail')
     text = json.dumps(body, indent=1, sort_keys=True, ensure_ascii=True)
     h = hashlib.blake2b(text.encode('ascii'), digest_size=6).hexdigest()
-    d = os.path.join(VERIF, 'replays')
+    d = os.environ.get('HXSIM_REPLAY_DIR') or os.path.join(VERIF, 'replays')
     os.makedirs(d, exist_ok=True)
     path = os.path.join(d, '%s-%s-%s.json' % (prop, violation['invariant'], h))
     with open(path, 'w') as fh:
@@ -302,8 +302,9 @@ def run_check(prop, tier, seed=None, workers=None, out=sys.stdout):
         print('KNOWN-FINDING: property=%s %s' % (prop, e.get('what', e['sig'])), file=out)
     ev = build_evidence(mod, prop, tier, seed, total, digests, reach, samples, wall, planned, done_runs,
                         truncated, per_stream, extra, len(reports), workers)
-    os.makedirs(os.path.join(VERIF, 'evidence'), exist_ok=True)
-    with open(os.path.join(VERIF, 'evidence', prop + '.json'), 'w') as fh:
+    evdir = os.environ.get('HXSIM_EVIDENCE_DIR') or os.path.join(VERIF, 'evidence')
+    os.makedirs(evdir, exist_ok=True)
+    with open(os.path.join(evdir, prop + '.json'), 'w') as fh:
         json.dump(ev, fh, indent=1, sort_keys=True)
         fh.write('\n')
     print('%s: %d/%d runs, %d evaluations, %d distinct non-trivial, %d sim steps, %.1fs wall%s' % (
